@@ -2,37 +2,36 @@
 (* All interleavings of up to MaxReqs concurrent requests, stage by stage.  *)
 EXTENDS ServePipeline
 
-CONSTANTS MaxReqs, Media, Users
+CONSTANTS MaxReqs, Media, Users, MaxDefects
 
-VARIABLES s, phase
-vars == <<s, phase>>
+VARIABLES s, phase, solo   \* solo[r]: what request r observes when it runs alone (computed when it is added)
+vars == <<s, phase, solo>>
 
+DefectCount(d) == IF d = "none" THEN 0 ELSE 1
 ReqChoices(k) ==
-  { [op |-> op, id |-> "i" \o ToString(k), body |-> "b" \o ToString(k), ctype |-> ct, accept |-> ac, cs |-> c, cu |-> u] :
-      op \in Ops, ct \in Media, ac \in Media, c \in {"key", "tok", NoneStr}, u \in Users }
+  { WithDefect(Req(k, oc[1], oc[2]), d) : oc \in OpCreds, d \in {x \in DefectKinds : DefectCount(x) <= MaxDefects} }
 
-WellFormed(q) == /\ (Secured(q.op) => Admits(q.op, q.cs))
-                 /\ (~Secured(q.op) => q.cs = NoneStr /\ q.cu = CHOOSE u \in Users : TRUE)
-                 /\ (~HasBody(q.op) => q.ctype = CHOOSE m \in Media : TRUE)
+WellFormed(q) == \E k \in 1..3, oc \in OpCreds, d \in DefectKinds :
+                    DefectApplies(oc[1], d) /\ q = WithDefect(Req(k, oc[1], oc[2]), d)
 
-Init == s = InitState(<< >>) /\ phase = "build"
+Init == s = InitState(<< >>) /\ phase = "build" /\ solo = << >>
 
 AddReq == /\ phase = "build"
           /\ Len(s.in) < MaxReqs
           /\ \E q \in ReqChoices(Len(s.in) + 1) :
-                WellFormed(q) /\ s' = InitState(Append(s.in, q))
+                WellFormed(q) /\ s' = InitState(Append(s.in, q)) /\ solo' = Append(solo, Solo(q))
           /\ UNCHANGED phase
 
-Start == phase = "build" /\ Len(s.in) >= 1 /\ phase' = "run" /\ UNCHANGED s
+Start == phase = "build" /\ Len(s.in) >= 1 /\ phase' = "run" /\ UNCHANGED <<s, solo>>
 
 Run == /\ phase = "run"
        /\ \E r \in DOMAIN s.in : ~Finished(s, r) /\ s' = StepState(s, r)
-       /\ UNCHANGED phase
+       /\ UNCHANGED <<phase, solo>>
 
 Next == AddReq \/ Start \/ Run
 Spec == Init /\ [][Next]_vars
 
-Private == phase = "run" => \A r \in DOMAIN s.in : Finished(s, r) \/ PrivateStep(s, r)
+Private == phase = "run" => \A r \in DOMAIN s.in : Finished(s, r) \/ StepObs(s, r) = solo[r][s.pc[r]]
 
 \* sanity: every request can run to completion and all stage kinds occur
 AllDone == phase = "run" /\ \A r \in DOMAIN s.in : Finished(s, r)
